@@ -58,4 +58,104 @@ THEOREM Safety == Spec => []TrialBudget
   BY DEF Inv, TrialBudget, MR
 <1> QED
   BY InitInv, NextInv, <1>1, PTL DEF Spec
+
+(* C07, "while it is open and timeout has not elapsed every request is       *)
+(* rejected": no caller passes the admission section (count -> run) while   *)
+(* the breaker is open inside its timeout -- for any number of callers, in  *)
+(* every interleaving (a caller that read "closed" or "half-open" earlier   *)
+(* and arrives after the breaker tripped again is turned away too).         *)
+OpenBlocks == \A c \in Callers : (pc[c] = "count" /\ pc'[c] = "run") => ~(state = "open" /\ openAge <= TO)
+
+PcType == pc \in [Callers -> STRING] /\ state \in {"closed", "open", "half"}
+THEOREM PcInit == Init => PcType
+  BY DEF Init, PcType
+THEOREM PcNext == PcType /\ [Next]_vars => PcType'
+<1> SUFFICES ASSUME PcType, [Next]_vars PROVE PcType'
+  OBVIOUS
+<1>1. ASSUME NEW c \in Callers, NEW o \in Outcomes, Call(c, o) PROVE PcType'
+  BY <1>1 DEF Call, PcType, bvars
+<1>2. ASSUME NEW c \in Callers, Step(c) PROVE PcType'
+  <2>1. ASSUME Read(c) PROVE PcType'
+    <3>1. (\E v \in STRING : pc' = [pc EXCEPT ![c] = v]) /\ state' = state
+      BY <2>1 DEF Read, PcType, bvars
+    <3> QED
+      BY <3>1 DEF PcType
+  <2>2. ASSUME Reset(c) PROVE PcType'
+    BY <2>2 DEF Reset, PcType
+  <2>3. ASSUME ToHalf(c) PROVE PcType'
+    <3>1. (\E v \in STRING : pc' = [pc EXCEPT ![c] = v]) /\ (state' = state \/ state' = "half")
+      BY <2>3 DEF ToHalf
+    <3> QED
+      BY <3>1 DEF PcType
+  <2>4. ASSUME Count(c) PROVE PcType'
+    <3>1. (\E v \in STRING : pc' = [pc EXCEPT ![c] = v]) /\ state' = state
+      BY <2>4 DEF Count
+    <3> QED
+      BY <3>1 DEF PcType
+  <2>5. ASSUME Run(c) PROVE PcType'
+    BY <2>5 DEF Run, PcType, bvars
+  <2>6. ASSUME After(c) PROVE PcType'
+    <3>1. (\E v \in STRING : pc' = [pc EXCEPT ![c] = v]) /\ state' \in {"closed", "open", state}
+      BY <2>6 DEF After
+    <3> QED
+      BY <3>1 DEF PcType
+  <2> QED
+    BY <1>2, <2>1, <2>2, <2>3, <2>4, <2>5, <2>6 DEF Step
+<1>3. ASSUME Tick PROVE PcType'
+  BY <1>3 DEF Tick, PcType
+<1>4. ASSUME UNCHANGED vars PROVE PcType'
+  BY <1>4 DEF vars, PcType
+<1> QED
+  BY <1>1, <1>2, <1>3, <1>4 DEF Next
+
+THEOREM StepOpenBlocks == PcType /\ [Next]_vars => OpenBlocks
+<1> SUFFICES ASSUME PcType, [Next]_vars, NEW c \in Callers, pc[c] = "count", pc'[c] = "run"
+             PROVE ~(state = "open" /\ openAge <= TO)
+  BY DEF OpenBlocks
+<1>1. ASSUME NEW d \in Callers, NEW o \in Outcomes, Call(d, o) PROVE FALSE
+  BY <1>1 DEF Call, PcType
+<1>2. ASSUME NEW d \in Callers, Read(d) \/ Reset(d) \/ ToHalf(d) \/ Run(d) \/ After(d) PROVE FALSE
+  <2>0. ASSUME NEW v \in STRING, pc' = [pc EXCEPT ![d] = v], (d = c => (pc[d] # "count" \/ v # "run")) PROVE FALSE
+    BY <2>0 DEF PcType
+  <2>1. ASSUME Read(d) PROVE FALSE
+    <3>1. pc[d] = "read" /\ \E v \in STRING : pc' = [pc EXCEPT ![d] = v]
+      BY <2>1 DEF Read, PcType
+    <3> QED
+      BY <3>1, <2>0
+  <2>2. ASSUME Reset(d) PROVE FALSE
+    <3>1. pc[d] = "reset" /\ pc' = [pc EXCEPT ![d] = "count"]
+      BY <2>2 DEF Reset
+    <3> QED
+      BY <3>1, <2>0
+  <2>3. ASSUME ToHalf(d) PROVE FALSE
+    <3>1. pc[d] = "tohalf" /\ \E v \in STRING : pc' = [pc EXCEPT ![d] = v]
+      BY <2>3 DEF ToHalf
+    <3> QED
+      BY <3>1, <2>0
+  <2>4. ASSUME Run(d) PROVE FALSE
+    <3>1. pc[d] = "run" /\ pc' = [pc EXCEPT ![d] = "after"]
+      BY <2>4 DEF Run
+    <3> QED
+      BY <3>1, <2>0
+  <2>5. ASSUME After(d) PROVE FALSE
+    <3>1. pc[d] = "after" /\ \E v \in STRING : pc' = [pc EXCEPT ![d] = v]
+      BY <2>5 DEF After
+    <3> QED
+      BY <3>1, <2>0
+  <2> QED
+    BY <1>2, <2>1, <2>2, <2>3, <2>4, <2>5
+<1>3. ASSUME NEW d \in Callers, Count(d) PROVE ~(state = "open" /\ openAge <= TO)
+  <2>1. d = c
+    BY <1>3 DEF Count, PcType
+  <2> QED
+    BY <1>3, <2>1 DEF Count, PcType
+<1>4. ASSUME Tick PROVE FALSE
+  BY <1>4 DEF Tick
+<1>5. ASSUME UNCHANGED vars PROVE FALSE
+  BY <1>5 DEF vars
+<1> QED
+  BY <1>1, <1>2, <1>3, <1>4, <1>5 DEF Next, Step
+
+THEOREM OpenSafety == Spec => [][OpenBlocks]_vars
+  BY PcInit, PcNext, StepOpenBlocks, PTL DEF Spec
 =============================================================================
